@@ -430,9 +430,8 @@ func (m *monitor) observe(n *node, phase, tag string) {
 		if st < prev {
 			m.violate("status-regressed:"+statusName(prev)+"->"+statusName(st)+":"+phase, "tombstone status went backwards",
 				map[string]any{"node": n.idx, "id": w.label(id), "before": statusName(prev), "now": statusName(st), "after": tag})
-		} else {
-			nm.status[id] = st
 		}
+		nm.status[id] = st
 		recorded := ok && st >= headstorage.DeletedStatusQueued
 		if recorded {
 			det := map[string]any{"node": n.idx, "id": w.label(id), "status": statusName(st), "pending_head_notifications": len(n.obsQ), "after": tag}
